@@ -317,7 +317,7 @@ Lemma diff_new_spec cur next k :
   ulast k (filter (diff_new cur) next) = match ulast k cur with None => ulast k next | Some _ => None end.
 Proof.
   pose proof (ulast_filter_key (fun a => match ulast a cur with None => true | Some _ => false end) k next) as H.
-  cbv beta in H. unfold diff_new. rewrite H. destruct (ulast k cur); reflexivity.
+  etransitivity; [exact H|]. cbv beta. destruct (ulast k cur); reflexivity.
 Qed.
 
 Lemma diff_apply_get cur next k : pos_set next ->
@@ -377,13 +377,13 @@ Proof.
   - specialize (IH (apply1 c m) (msorted_apply1 c m Hs)). unfold apply1 in IH.
     assert (Ha : apply1 c m = if snd c <? 1 then mdel (fst c) m else mset (fst c) (snd c) m) by reflexivity.
     destruct (apply_cc t (if snd c <? 1 then mdel (fst c) m else mset (fst c) (snd c) m)) as [mf ret].
-    simpl in *. rewrite apply_updates_cons, Ha. exact IH.
+    simpl in *. exact IH.
   - destruct (Z.ltb_spec 0 (snd c)) as [Hp|Hp].
     + assert (Ha : apply1 c m = mset (fst c) (snd c) m).
       { unfold apply1. destruct (Z.ltb_spec (snd c) 1); [lia|reflexivity]. }
       specialize (IH (mset (fst c) (snd c) m) (msorted_mset _ _ _ Hs)).
       destruct (apply_cc t (mset (fst c) (snd c) m)) as [mf ret]. simpl in *.
-      rewrite apply_updates_cons, Ha. exact IH.
+      rewrite Ha. exact IH.
     + now apply IH.
 Qed.
 
